@@ -94,6 +94,20 @@ func validateBlock(state State, block *types.Block) error {
 			state.ChainID, state.LastBlockID, block.Height-1, block.LastCommit); err != nil {
 			return err
 		}
+		// VerifyCommit matches signatures to validators by index only, whereas
+		// MedianTime below (and anyone reconstructing votes from the commit)
+		// uses the address recorded in the CommitSig. Make sure they agree,
+		// otherwise relabelled signatures shift the weights of the median time.
+		for i, commitSig := range block.LastCommit.Signatures {
+			if commitSig.Absent() {
+				continue
+			}
+			valAddr := state.LastValidators.Validators[i].Address
+			if !bytes.Equal(commitSig.ValidatorAddress, valAddr) {
+				return fmt.Errorf("wrong validator address in LastCommit signature #%d. Expected %X, got %X",
+					i, valAddr, commitSig.ValidatorAddress)
+			}
+		}
 	}
 
 	// NOTE: We can't actually verify it's the right proposer because we don't
